@@ -179,10 +179,12 @@ macro_rules! native_rc5 {
             pub const U: usize = $w / 8;
             pub const P: $ty = super::p_w($w) as $ty;
             pub const Q: $ty = super::q_w($w) as $ty;
+            /// x <<< y: rotation by y mod w.  (`rotate_left(n)` of the standard library rotates by n mod w for every n: u32;
+            /// the amount is reduced first only where `y as u32` would truncate, i.e. for w > 32.)
             #[inline(always)]
-            pub fn rotl(x: $ty, y: $ty) -> $ty { x.rotate_left((y % ($w as $ty)) as u32) }
+            pub fn rotl(x: $ty, y: $ty) -> $ty { if $w <= 32 { x.rotate_left(y as u32) } else { x.rotate_left((y % ($w as $ty)) as u32) } }
             #[inline(always)]
-            pub fn rotr(x: $ty, y: $ty) -> $ty { x.rotate_right((y % ($w as $ty)) as u32) }
+            pub fn rotr(x: $ty, y: $ty) -> $ty { if $w <= 32 { x.rotate_right(y as u32) } else { x.rotate_right((y % ($w as $ty)) as u32) } }
             pub fn key_to_words<const C: usize>(key: &[u8]) -> [$ty; C] {
                 assert!(key.len() <= 255 && C == super::key_words($w, key.len()));
                 let mut l = [0 as $ty; C];
